@@ -115,6 +115,22 @@ pub fn check_cleanup(text: &str) -> Result<Vec<CV>, String> {
             out.push(CV { oracle: "removed-while-referenced", detail: ed.site.clone(), what: format!("{owner} still refers to {:?} {} at {}, which cleanup removed", ed.ns, ed.target, ed.site) });
         }
     }
+    // (2b) .. also when the reference has been deleted together with its target: a COMPU_METHOD, conversion table, UNIT or
+    // RECORD_LAYOUT that was removed was not referred to, before the run, by anything that remains
+    for e in before.elems.iter().filter(|e| matches!(e.ns, Some(Ns::CompuMethod) | Some(Ns::Tab) | Some(Ns::Unit) | Some(Ns::RecordLayout))) {
+        let ns = e.ns.unwrap();
+        if after.get(ns, &e.name).into_iter().any(|x| x.kind == e.kind) {
+            continue;
+        }
+        for o in before.elems.iter().filter(|o| o.ns.is_some() && !(o.ns == e.ns && o.name == e.name)) {
+            let remains = after.get(o.ns.unwrap(), &o.name).into_iter().any(|x| x.kind == o.kind);
+            if remains {
+                if let Some(ed) = o.edges.iter().find(|ed| ed.ns == ns && ed.target == e.name) {
+                    out.push(CV { oracle: "removed-while-referenced", detail: ed.site.clone(), what: format!("{} {} was removed although {} {}, which remains, referred to it at {} (the reference is gone as well)", e.kind, e.name, o.kind, o.name, ed.site) });
+                }
+            }
+        }
+    }
     // (3) check(): a file without cross-reference problems has none afterwards
     if check_before == 0 {
         let after_check = f.check();
